@@ -655,3 +655,13 @@ pub const fn format_error<const FORMAT: u128>() -> Error {
 
 /// Standard number format. This is identical to the Rust string format.
 pub const STANDARD: u128 = NumberFormatBuilder::new().build_strict();
+
+/// Verification hook (off unless built with `--cfg alexhuszagh_rust_lexical_verif`):
+/// the runtime form of format validation, which the public API only exposes
+/// through const generics.
+#[doc(hidden)]
+#[cfg(alexhuszagh_rust_lexical_verif)]
+#[inline(always)]
+pub const fn verif_format_error(format: u128) -> Error {
+    format_error_impl(format)
+}
